@@ -1240,7 +1240,7 @@ def simp_zeroext_eq_cst(_, expr):
     if not (arg1.is_op() and arg1.op.startswith("zeroExt")):
         return expr
     src = arg1.args[0]
-    if int(arg2) > (1 << src.size):
+    if int(arg2) >= (1 << src.size):
         # Always false
         return ExprInt(0, expr.size)
     return ExprOp(TOK_EQUAL, src, ExprInt(int(arg2), src.size))
